@@ -192,29 +192,32 @@ Definition md5 (msg : list N) : list N :=
 
 Definition lane (st : list N) (x y : nat) : N := nthd st ((x mod 5) + 5 * (y mod 5)).
 
-Definition keccak_round (st : list N) (rc : N) : list N :=
+Definition keccak_theta (st : list N) : list N :=
   let c := map (fun x => N.lxor (N.lxor (N.lxor (lane st x 0) (lane st x 1)) (N.lxor (lane st x 2) (lane st x 3))) (lane st x 4))
                (seq 0 5) in
   let d := map (fun x => N.lxor (nthd c ((x + 4) mod 5)) (rotl 64 1 (nthd c ((x + 1) mod 5)))) (seq 0 5) in
-  (* theta *)
-  let a := map (fun i => N.lxor (nthd st i) (nthd d (i mod 5))) (seq 0 25) in
-  (* rho and pi: B[y, 2x+3y] = rot(A[x,y], r[x,y]) *)
-  let b := map (fun i =>
-                  let x' := (i mod 5)%nat in let y' := (i / 5)%nat in
-                  (* find (x,y) with y = x' and (2x+3y) mod 5 = y' : x = (x' + 3 y') mod 5 *)
-                  let x := ((x' + 3 * y') mod 5)%nat in let y := x' in
-                  rotl 64 (nthd keccak_rot (x + 5 * y)) (nthd a (x + 5 * y)))
-               (seq 0 25) in
-  (* chi *)
-  let e := map (fun i =>
-                  let x := (i mod 5)%nat in let y := (i / 5)%nat in
-                  N.lxor (lane b x y) (N.land (wnot 64 (lane b (x + 1) y)) (lane b (x + 2) y)))
-               (seq 0 25) in
-  (* iota *)
-  match e with
-  | e0 :: r => N.lxor e0 rc :: r
-  | [] => []
-  end.
+  map (fun i => N.lxor (nthd st i) (nthd d (i mod 5))) (seq 0 25).
+
+(* rho and pi: B[y, 2x+3y] = rot(A[x,y], r[x,y]); for the target (x', y') the source is
+   x = (x' + 3 y') mod 5, y = x' *)
+Definition keccak_rho_pi (a : list N) : list N :=
+  map (fun i =>
+         let x' := (i mod 5)%nat in let y' := (i / 5)%nat in
+         let x := ((x' + 3 * y') mod 5)%nat in let y := x' in
+         rotl 64 (nthd keccak_rot (x + 5 * y)) (nthd a (x + 5 * y)))
+      (seq 0 25).
+
+Definition keccak_chi (b : list N) : list N :=
+  map (fun i =>
+         let x := (i mod 5)%nat in let y := (i / 5)%nat in
+         N.lxor (lane b x y) (N.land (wnot 64 (lane b (x + 1) y)) (lane b (x + 2) y)))
+      (seq 0 25).
+
+Definition keccak_iota (e : list N) (rc : N) : list N :=
+  map (fun i => if (i =? 0)%nat then N.lxor (nthd e i) rc else nthd e i) (seq 0 25).
+
+Definition keccak_round (st : list N) (rc : N) : list N :=
+  keccak_iota (keccak_chi (keccak_rho_pi (keccak_theta st))) rc.
 
 Definition keccak_f (st : list N) : list N := fold_left keccak_round keccak_rc st.
 
